@@ -7,10 +7,12 @@ import (
 	"crypto/x509"
 	"encoding/binary"
 	"fmt"
+	"hash/crc32"
 	"io"
 	"os"
 	"path/filepath"
 	"sort"
+	"strconv"
 	"strings"
 
 	"github.com/foxboron/go-uefi/authenticode"
@@ -313,6 +315,24 @@ func c02CoveredChanges(c *Ctx, cs Case, signed []byte, right *x509.Certificate, 
 	}
 }
 
+// cutReader delivers the bytes of r and then fails: a file on a medium that goes away in the middle of a read.
+// withData: the error is returned together with the last bytes (io.Reader allows both).
+type cutReader struct {
+	r        *bytes.Reader
+	withData bool
+}
+
+func (q *cutReader) Read(p []byte) (int, error) {
+	if q.r.Len() == 0 {
+		return 0, errInjected
+	}
+	n, _ := q.r.Read(p)
+	if q.withData && q.r.Len() == 0 {
+		return n, errInjected
+	}
+	return n, nil
+}
+
 // c02OneObject: one parsed object is asked again and again, the way a caller walks the entries of a signature
 // database with one parsed signature. Every call must answer what the same call answers on a freshly parsed
 // object, and only (signer's certificate, the image's own hash input) may succeed: a success is bound to the key
@@ -320,8 +340,31 @@ func c02CoveredChanges(c *Ctx, cs Case, signed []byte, right *x509.Certificate, 
 func c02OneObject(c *Ctx, cs Case, signed, sig, pre []byte, certs map[string]*x509.Certificate) {
 	tampered := append([]byte{}, pre...)
 	tampered[len(tampered)/2] ^= 0x01
-	streams := map[string][]byte{"same": pre, "changed": tampered}
-	type step struct{ api, cert, stream string }
+	// what the reader of a step delivers: the hash input of the image ("same"), a changed one ("changed"), only its
+	// first k bytes ("head@k") or only the bytes from k on ("tail@k"), or its first k bytes followed by a read error
+	// ("fault@k": the error comes with a read of its own; "fault+@k": together with the last bytes) - a medium that
+	// goes away in the middle of a read. Only "same" is the image.
+	reader := func(stream string) io.Reader {
+		name, ks, _ := strings.Cut(stream, "@")
+		k, _ := strconv.Atoi(ks)
+		k = max(0, min(k, len(pre)))
+		switch name {
+		case "changed":
+			return bytes.NewReader(tampered)
+		case "head":
+			return bytes.NewReader(pre[:k])
+		case "tail":
+			return bytes.NewReader(pre[k:])
+		case "fault", "fault+":
+			return &cutReader{r: bytes.NewReader(pre[:k]), withData: name == "fault+"}
+		}
+		return bytes.NewReader(pre)
+	}
+	// fresh: the call is made on an object parsed for this call (another parsed copy of the signature / the image)
+	type step struct {
+		api, cert, stream string
+		fresh             bool
+	}
 	cls := func(pan bool, ok bool, err error) string {
 		if pan {
 			return "panic"
@@ -343,7 +386,8 @@ func c02OneObject(c *Ctx, cs Case, signed, sig, pre []byte, certs map[string]*x5
 					return "parse-err"
 				}
 			}
-			pan, _ = safely(func() { ok, err = a.Verify(certs[st.cert], bytes.NewReader(streams[st.stream])) })
+			rd := reader(st.stream)
+			pan, _ = safely(func() { ok, err = a.Verify(certs[st.cert], rd) })
 		case "PKCS7.Verify":
 			if a == nil {
 				if a, err = authenticode.ParseAuthenticode(sig); err != nil {
@@ -366,18 +410,46 @@ func c02OneObject(c *Ctx, cs Case, signed, sig, pre []byte, certs map[string]*x5
 	var histories [][]step
 	// the signer's certificate first, then each other certificate through each entry point; and the reverse
 	for _, api := range apis {
-		histories = append(histories, []step{{api, "right", "same"}, {api, "twin", "same"}, {api, "stranger", "same"}, {api, "right", "same"}},
-			[]step{{api, "twin", "same"}, {api, "right", "same"}, {api, "twin", "same"}})
+		histories = append(histories, []step{{api, "right", "same", false}, {api, "twin", "same", false}, {api, "stranger", "same", false}, {api, "right", "same", false}},
+			[]step{{api, "twin", "same", false}, {api, "right", "same", false}, {api, "twin", "same", false}})
 	}
 	histories = append(histories,
-		[]step{{"Authenticode.Verify", "right", "same"}, {"PKCS7.Verify", "twin", ""}, {"Authenticode.Verify", "twin", "same"}},
-		[]step{{"PKCS7.Verify", "right", ""}, {"Authenticode.Verify", "twin", "same"}, {"PKCS7.Verify", "twin", ""}},
-		[]step{{"Authenticode.Verify", "right", "same"}, {"Authenticode.Verify", "right", "changed"}, {"Authenticode.Verify", "right", "same"}},
-		[]step{{"Authenticode.Verify", "right", "changed"}, {"Authenticode.Verify", "right", "same"}, {"Authenticode.Verify", "twin", "changed"}})
-	for i := 0; i < c.P(2, 12); i++ { // random walks
+		[]step{{"Authenticode.Verify", "right", "same", false}, {"PKCS7.Verify", "twin", "", false}, {"Authenticode.Verify", "twin", "same", false}},
+		[]step{{"PKCS7.Verify", "right", "", false}, {"Authenticode.Verify", "twin", "same", false}, {"PKCS7.Verify", "twin", "", false}},
+		[]step{{"Authenticode.Verify", "right", "same", false}, {"Authenticode.Verify", "right", "changed", false}, {"Authenticode.Verify", "right", "same", false}},
+		[]step{{"Authenticode.Verify", "right", "changed", false}, {"Authenticode.Verify", "right", "same", false}, {"Authenticode.Verify", "twin", "changed", false}})
+	// a call that is cut short by a read error after k bytes, or that is handed only the first k bytes, and then a
+	// call that is handed only the REST of the image (on the same object, on an object parsed for that call, under
+	// the same or another certificate), or the whole image
+	cuts := []int{1, 63, 64, len(pre) / 2, len(pre) - 1, 1 + c.Rng.Intn(len(pre)-1), 1 + c.Rng.Intn(len(pre)-1)}
+	if !c.Thorough {
+		cuts = []int{cuts[c.Rng.Intn(5)], cuts[5]}
+	}
+	for ci, k := range cuts {
+		if k < 1 || k >= len(pre) {
+			continue
+		}
+		av := "Authenticode.Verify"
+		at := func(name string) string { return fmt.Sprintf("%s@%d", name, k) }
+		fault := at([]string{"fault", "fault+"}[ci%2])
+		histories = append(histories,
+			[]step{{av, "right", fault, false}, {av, "right", at("tail"), false}, {av, "right", "same", false}},
+			[]step{{av, "right", fault, false}, {av, "right", at("tail"), true}, {av, "right", "same", true}},
+			[]step{{av, "right", fault, false}, {av, "right", "same", false}, {av, "right", at("tail"), false}},
+			[]step{{av, "twin", fault, true}, {av, "right", at("tail"), false}},
+			[]step{{av, "right", at("head"), false}, {av, "right", at("tail"), false}, {av, "right", fault, false}, {"PECOFFBinary.Verify", "right", "", false}, {av, "right", at("tail"), true}})
+	}
+	walkStream := func() string {
+		k := 1 + c.Rng.Intn(len(pre)-1)
+		return []string{"same", "same", "changed", fmt.Sprintf("fault@%d", k), fmt.Sprintf("fault+@%d", k), fmt.Sprintf("tail@%d", k), fmt.Sprintf("head@%d", k)}[c.Rng.Intn(7)]
+	}
+	for i := 0; i < c.P(3, 12); i++ { // random walks
 		var h []step
 		for j := 0; j < 3+c.Rng.Intn(4); j++ {
-			h = append(h, step{apis[c.Rng.Intn(len(apis))], kinds[c.Rng.Intn(len(kinds))], []string{"same", "same", "changed"}[c.Rng.Intn(3)]})
+			h = append(h, step{apis[c.Rng.Intn(len(apis))], kinds[c.Rng.Intn(len(kinds))], walkStream(), c.Rng.Intn(4) == 0})
+			if last := h[len(h)-1]; strings.HasPrefix(last.stream, "fault") && c.Rng.Intn(2) == 0 { // the rest of that image next
+				h = append(h, step{"Authenticode.Verify", "right", "tail" + last.stream[strings.Index(last.stream, "@"):], c.Rng.Intn(2) == 0})
+			}
 		}
 		histories = append(histories, h)
 	}
@@ -387,24 +459,73 @@ func c02OneObject(c *Ctx, cs Case, signed, sig, pre []byte, certs map[string]*x5
 		if err1 != nil || err2 != nil {
 			return
 		}
+		// the history runs first, nothing else is called between its steps; what each call answers alone (on objects
+		// parsed for it) is asked afterwards
+		gots := make([]string, len(h))
+		for si, st := range h {
+			if st.fresh {
+				gots[si] = call(nil, nil, st)
+			} else {
+				gots[si] = call(a, p, st)
+			}
+		}
 		trail := ""
 		for si, st := range h {
-			got := call(a, p, st)
+			got := gots[si]
 			fresh := call(nil, nil, st)
-			c.Count(fmt.Sprintf("%s|one-object|%d|%d", cs.Key(), hi, si), true, "one-object/"+st.api+"/"+st.cert+"/"+strings.ReplaceAll(got, " ", "-"))
-			here := fmt.Sprintf("%s(%s certificate%s)", st.api, st.cert, map[bool]string{true: ", " + st.stream + " stream", false: ""}[st.api == "Authenticode.Verify"])
+			sc, _, _ := strings.Cut(st.stream, "@")
+			c.Count(fmt.Sprintf("%s|one-object|%d|%d", cs.Key(), hi, si), true, "one-object/"+st.api+"/"+st.cert+map[bool]string{true: "/" + sc, false: ""}[st.api == "Authenticode.Verify" && sc != "same" && sc != "changed"]+"/"+strings.ReplaceAll(got, " ", "-"))
+			here := fmt.Sprintf("%s(%s certificate%s%s)", st.api, st.cert, map[bool]string{true: ", " + st.stream + " stream", false: ""}[st.api == "Authenticode.Verify"], map[bool]string{true: ", on an object parsed for this call", false: ""}[st.fresh])
 			if got == "panic" {
 				c.Fail(Failure{Kind: "property", Matcher: "c02.verify_panics", What: here + " panicked on an object that had answered: " + trail, Case: cs})
 			}
 			mayOK := st.cert == "right" && (st.api != "Authenticode.Verify" || st.stream == "same")
 			if got == "ok true" && !mayOK {
-				c.Fail(Failure{Kind: "property", What: "one parsed signature asked repeatedly: " + here + " succeeded although this key did not sign these bytes; calls before it on the same object: " + trail, Case: cs, Go: got, Spec: "a freshly parsed object answers: " + fresh})
+				c.Fail(Failure{Kind: "property", What: "a history of verification calls: " + here + " succeeded although this key did not sign the bytes the reader delivers (the hash input of the signed image has " + fmt.Sprint(len(pre)) + " bytes); calls before it: " + trail, Case: cs, Go: got, Spec: "a freshly parsed object answers: " + fresh})
 			} else if got != fresh {
-				c.Fail(Failure{Kind: "property", What: "one parsed signature asked repeatedly: " + here + " answers differently from the same call on a freshly parsed object; calls before it on the same object: " + trail, Case: cs, Go: got, Spec: "a freshly parsed object answers: " + fresh})
+				c.Fail(Failure{Kind: "property", What: "a history of verification calls: " + here + " answers differently from the same call made alone on a freshly parsed object; calls before it: " + trail, Case: cs, Go: got, Spec: "a freshly parsed object answers: " + fresh})
 			}
 			trail += here + "=" + got + "; "
 		}
 	}
+}
+
+// positionedReaders: seekable readers over `whole` that are handed over standing at offset off - a caller that has
+// seeked to, or read up to, the part it wants processed. Each delivers whole[off:]. The second result releases
+// the file behind the os.File reader.
+type namedReader struct {
+	kind string
+	r    io.Reader
+}
+
+func positionedReaders(whole []byte, off int) ([]namedReader, func()) {
+	var out []namedReader
+	at := fmt.Sprintf("@%d", off)
+	seek := func(kind string, r io.ReadSeeker) {
+		if _, err := r.Seek(int64(off), io.SeekStart); err == nil {
+			out = append(out, namedReader{kind + "/seeked" + at, r})
+		}
+	}
+	read := func(kind string, r io.Reader) {
+		if _, err := io.CopyN(io.Discard, r, int64(off)); err == nil {
+			out = append(out, namedReader{kind + "/read-up-to" + at, r})
+		}
+	}
+	seek("bytes.Reader", bytes.NewReader(whole))
+	read("bytes.Reader", bytes.NewReader(whole))
+	seek("strings.Reader", strings.NewReader(string(whole)))
+	// a window into a larger buffer
+	big := append(append(bytes.Repeat([]byte{0xEE}, 24), whole...), bytes.Repeat([]byte{0xDD}, 40)...)
+	seek("io.SectionReader", io.NewSectionReader(bytes.NewReader(big), 24, int64(len(whole))))
+	read("io.SectionReader", io.NewSectionReader(bytes.NewReader(big), 24, int64(len(whole))))
+	done := func() {}
+	if f, err := os.CreateTemp("", "vcheck-c02-*"); err == nil {
+		done = func() { f.Close(); os.Remove(f.Name()) }
+		if _, err := f.Write(whole); err == nil {
+			seek("os.File", f)
+		}
+	}
+	return out, done
 }
 
 // replace the certificate table of img by `table` (8-aligned entries) and fix the directory entry
@@ -716,9 +837,11 @@ func c02Eval(c *Ctx, cs Case) {
 		binary.LittleEndian.PutUint32(m2[dd+4:], binary.LittleEndian.Uint32(m2[dd+4:])+uint32(n))
 		all(m2, "data-after-table+size")
 	}
-	// 9. the public reader-based API (Authenticode.Verify / SignAuthenticode) with every reader kind: success
-	// exactly when the reader delivers the specification's hash input of the image
-	if pre := unhx(fieldAfter(c.Drv.Ask("pe.spec", hx(signed)), "pre=")); len(pre) > 0 {
+	// 9. the public reader-based API (Authenticode.Verify / SignAuthenticode) with every reader kind, including
+	// seekable readers that do NOT stand at their beginning when they are handed over (an image behind a header
+	// inside a larger blob or file, the caller has seeked or read up to the image): the image that is verified /
+	// signed is what the reader DELIVERS. Success exactly when that is the specification's hash input of the image.
+	if pre := unhx(fieldAfter(c.Drv.Ask("pe.spec", hx(signed)), "pre=")); len(pre) > 1 {
 		if a, err := authenticode.ParseAuthenticode(sig); err == nil {
 			streams := map[string][]byte{"same": pre}
 			t1 := append([]byte{}, pre...)
@@ -729,7 +852,31 @@ func c02Eval(c *Ctx, cs Case) {
 			streams["middle-byte"] = t2
 			streams["prefix"] = pre[:len(pre)-1]
 			streams["other-image"] = other
-			for name, st := range streams {
+			// only the rest of the hash input, from byte 1 and from a position chosen by the image
+			cutAt := 1 + int(crc32.ChecksumIEEE(pre))%(len(pre)-1)
+			streams["suffix@1"] = pre[1:]
+			streams[fmt.Sprintf("suffix@%d", cutAt)] = pre[cutAt:]
+			names := make([]string, 0, len(streams))
+			for name := range streams {
+				names = append(names, name)
+			}
+			sort.Strings(names)
+			verify := func(name, kind string, rd io.Reader) {
+				var ok bool
+				var verr error
+				if pan, _ := safely(func() { ok, verr = a.Verify(right, rd) }); pan {
+					c.Fail(Failure{Kind: "property", Matcher: "c02.verify_panics", What: "Authenticode.Verify panicked (" + kind + ")", Case: cs})
+					return
+				}
+				sc, _, _ := strings.Cut(name, "@")
+				kc, _, _ := strings.Cut(kind, "@")
+				c.Count(fmt.Sprintf("%s|reader|%s|%s", cs.Key(), name, kind), true, "reader-api/"+sc+"/"+kc)
+				if want := name == "same"; (ok && verr == nil) != want {
+					c.Fail(Failure{Kind: "property", What: fmt.Sprintf("Authenticode.Verify over a %s reader delivering the %s stream (%d bytes; the hash input of the signed image has %d): success=%v, expected %v", kind, name, len(streams[name]), len(pre), ok && verr == nil, want), Case: cs, Go: fmt.Sprint(ok, verr)})
+				}
+			}
+			for _, name := range names {
+				st := streams[name]
 				for _, kind := range append([]string{"open-section"}, readerKinds...) {
 					var rd io.Reader
 					if kind == "open-section" {
@@ -737,20 +884,43 @@ func c02Eval(c *Ctx, cs Case) {
 					} else {
 						rd = newSrcReader(kind, st).r
 					}
-					var ok bool
-					var verr error
-					if pan, _ := safely(func() { ok, verr = a.Verify(right, rd) }); pan {
-						c.Fail(Failure{Kind: "property", Matcher: "c02.verify_panics", What: "Authenticode.Verify panicked (" + kind + ")", Case: cs})
-						continue
+					verify(name, kind, rd)
+				}
+				// the stream sits behind a header of another length each time; the reader stands on its first byte
+				hdr := randBytes(c, 1+c.Rng.Intn(96))
+				prs, done := positionedReaders(append(append([]byte{}, hdr...), st...), len(hdr))
+				for _, pr := range prs {
+					verify(name, pr.kind, pr.r)
+				}
+				done()
+				// the rest of the hash input delivered by a reader over the WHOLE hash input that stands at the cut
+				if _, at, isSuffix := strings.Cut(name, "suffix@"); isSuffix {
+					k, _ := strconv.Atoi(at)
+					prs, done := positionedReaders(pre, k)
+					for _, pr := range prs {
+						verify(name, pr.kind+"-over-the-whole-hash-input", pr.r)
 					}
-					c.Count(fmt.Sprintf("%s|reader|%s|%s", cs.Key(), name, kind), true, "reader-api/"+name+"/"+kind)
-					if want := name == "same"; (ok && verr == nil) != want {
-						c.Fail(Failure{Kind: "property", What: fmt.Sprintf("Authenticode.Verify over a %s reader delivering the %s stream: success=%v, expected %v", kind, name, ok && verr == nil, want), Case: cs, Go: fmt.Sprint(ok, verr)})
-					}
+					done()
 				}
 			}
 			// signing through the same reader kinds commits to the digest of exactly the bytes delivered
 			want := sha256.Sum256(pre)
+			signOver := func(kind string, rd io.Reader, want []byte) {
+				key := poolKey(c, 2048, 0)
+				var sg []byte
+				var err error
+				if pan, _ := safely(func() { sg, err = authenticode.SignAuthenticode(key, right, rd, crypto.SHA256) }); pan {
+					c.Fail(Failure{Kind: "property", Matcher: "c02.verify_panics", What: "SignAuthenticode panicked (" + kind + ")", Case: cs})
+				} else if err == nil {
+					if d := embeddedDigest(sg); !bytes.Equal(d, want) {
+						c.Fail(Failure{Kind: "property", What: "SignAuthenticode over a " + kind + " reader embeds a digest that is not the digest of the bytes delivered", Case: cs, Go: hx(d), Spec: hx(want)})
+					}
+				} else {
+					c.Fail(Failure{Kind: "property", What: "SignAuthenticode failed over a " + kind + " reader", Case: cs, Go: err.Error()})
+				}
+				kc, _, _ := strings.Cut(kind, "@")
+				c.Class("reader-api/sign/" + kc)
+			}
 			for _, kind := range append([]string{"open-section"}, readerKinds...) {
 				var rd io.Reader
 				if kind == "open-section" {
@@ -758,15 +928,24 @@ func c02Eval(c *Ctx, cs Case) {
 				} else {
 					rd = newSrcReader(kind, pre).r
 				}
-				key := poolKey(c, 2048, 0)
-				if sg, err := authenticode.SignAuthenticode(key, right, rd, crypto.SHA256); err == nil {
-					if d := embeddedDigest(sg); !bytes.Equal(d, want[:]) {
-						c.Fail(Failure{Kind: "property", What: "SignAuthenticode over a " + kind + " reader embeds a digest that is not the digest of the bytes delivered", Case: cs, Go: hx(d), Spec: hx(want[:])})
-					}
-				} else {
-					c.Fail(Failure{Kind: "property", What: "SignAuthenticode failed over a " + kind + " reader", Case: cs, Go: err.Error()})
+				signOver(kind, rd, want[:])
+			}
+			hdr := randBytes(c, 1+c.Rng.Intn(96))
+			prs, done := positionedReaders(append(append([]byte{}, hdr...), pre...), len(hdr))
+			for i, pr := range prs {
+				if c.Thorough || cs.S("path") != "" || i%3 == int(crc32.ChecksumIEEE(pre))%3 { // an RSA signature each
+					signOver(pr.kind, pr.r, want[:])
 				}
 			}
+			done()
+			wantRest := sha256.Sum256(pre[cutAt:])
+			prs, done = positionedReaders(pre, cutAt)
+			for i, pr := range prs {
+				if c.Thorough || cs.S("path") != "" || i%3 == int(crc32.ChecksumIEEE(pre)>>2)%3 {
+					signOver(pr.kind+"-over-the-whole-hash-input", pr.r, wantRest[:])
+				}
+			}
+			done()
 		}
 	}
 	// 10. one parsed object (Authenticode, its PKCS7, PECOFFBinary) asked repeatedly with different certificates and streams
@@ -814,7 +993,7 @@ func c02Gen(c *Ctx) {
 
 func init() {
 	register("C02", &PropDef{
-		Rule:   "images from the C01 generator and two repository binaries, signed by the library; for each, Verify under the signer's certificate, a twin certificate (same issuer and serial, another key) and a stranger, on: the signed image, the unsigned image, ~25 stratified single-byte changes (+8 inside the certificate table), a cross-image transplant of the certificate table, a covered-byte change with the embedded digest overwritten by the new image digest (alone, and combined with each targeted blob edit and OID replacement), targeted edits inside the blob (content, content type, certificates, signer identity, message digest, dropped attributes), a sample of generic blob mutations, two-signature tables in both orders, a tampered image carrying the original signature plus a foreign key's signature over the tampered bytes (both orders), and the same tampered image with ONE table entry: the foreign key's signature with the genuine signature over the original bytes placed inside it, in every place of a blob that can hold another blob (unsigned attributes of a signer entry under the SpcNestedSignature / MS RFC 3161 timestamp / timeStampToken / an unknown attribute type, one and two values; a counter-signature attribute holding the genuine signer entry; an extra certificate; the CRL field; a further content element; the genuine signer entries appended / prepended; trailing fields of SignedData and of the content info; a second SignedData), plus a sample of the reverse nesting. The targeted blob edits include the two-signer-entry combinations of C04 (identity x signature, and identity x attributes re-bound to replaced content) and a blob consistently re-signed by another key. Every pair is compared with the Lean Impl verifier (real SHA-256/RSA) and judged by Spec.authenticodeVerify; in addition, two oracles that do not go through Lean: (a) derivation classes whose construction rules out a success (unsigned, transplant, digest-rewrite*, tampered+*, data-after-table, size-inflate, table-shift) must not verify under any asked certificate; (b) covered-byte changes by an independent header walk: on every signed image that verifies, one bit is changed in the headers (outside checksum and certificate-table entry), at both ends of the raw data of the sections that have a place in the file, and behind the last such section up to the certificate table (its first four bytes one by one, offsets 2^k and 2^k-1 from its start, its last bytes, three random ones), and the image must no longer verify. Besides the well-formed images, 8 images whose section table also holds one or two headers that declare raw data without a file pointer (SizeOfRawData in {1,7,8,9,64,512,random} > 0, PointerToRawData = 0; in front of or behind the other headers), with fewer / exactly as many / more bytes behind the last section than these headers declare: the Lean Spec is asked (pe.spec) whether an image lies in its well-formed domain; outside it neither the Spec verdict nor the Impl model is applied, the library may refuse to parse or sign, and when it signs and verifies the image, oracle (b), the twin / stranger certificates and the table transplant still bind it. One parsed object asked repeatedly (the way a caller walks a signature database with one parsed signature): for every image, histories of 3-7 calls of Authenticode.Verify (over the hash input of the image or a changed stream), its PKCS7.Verify and PECOFFBinary.Verify on ONE parsed Authenticode / PECOFFBinary with the signer, twin and stranger certificates in both orders (signer first, other key first), mixed entry points and random walks; every call must answer what the same call answers on a freshly parsed object, and only (signer certificate, own hash input) may succeed. Every case is non-trivial; distinct = distinct (image bytes, certificate) resp. (image, history, step).",
+		Rule:   "images from the C01 generator and two repository binaries, signed by the library; for each, Verify under the signer's certificate, a twin certificate (same issuer and serial, another key) and a stranger, on: the signed image, the unsigned image, ~25 stratified single-byte changes (+8 inside the certificate table), a cross-image transplant of the certificate table, a covered-byte change with the embedded digest overwritten by the new image digest (alone, and combined with each targeted blob edit and OID replacement), targeted edits inside the blob (content, content type, certificates, signer identity, message digest, dropped attributes), a sample of generic blob mutations, two-signature tables in both orders, a tampered image carrying the original signature plus a foreign key's signature over the tampered bytes (both orders), and the same tampered image with ONE table entry: the foreign key's signature with the genuine signature over the original bytes placed inside it, in every place of a blob that can hold another blob (unsigned attributes of a signer entry under the SpcNestedSignature / MS RFC 3161 timestamp / timeStampToken / an unknown attribute type, one and two values; a counter-signature attribute holding the genuine signer entry; an extra certificate; the CRL field; a further content element; the genuine signer entries appended / prepended; trailing fields of SignedData and of the content info; a second SignedData), plus a sample of the reverse nesting. The targeted blob edits include the two-signer-entry combinations of C04 (identity x signature, and identity x attributes re-bound to replaced content) and a blob consistently re-signed by another key. Every pair is compared with the Lean Impl verifier (real SHA-256/RSA) and judged by Spec.authenticodeVerify; in addition, two oracles that do not go through Lean: (a) derivation classes whose construction rules out a success (unsigned, transplant, digest-rewrite*, tampered+*, data-after-table, size-inflate, table-shift) must not verify under any asked certificate; (b) covered-byte changes by an independent header walk: on every signed image that verifies, one bit is changed in the headers (outside checksum and certificate-table entry), at both ends of the raw data of the sections that have a place in the file, and behind the last such section up to the certificate table (its first four bytes one by one, offsets 2^k and 2^k-1 from its start, its last bytes, three random ones), and the image must no longer verify. Besides the well-formed images, 8 images whose section table also holds one or two headers that declare raw data without a file pointer (SizeOfRawData in {1,7,8,9,64,512,random} > 0, PointerToRawData = 0; in front of or behind the other headers), with fewer / exactly as many / more bytes behind the last section than these headers declare: the Lean Spec is asked (pe.spec) whether an image lies in its well-formed domain; outside it neither the Spec verdict nor the Impl model is applied, the library may refuse to parse or sign, and when it signs and verifies the image, oracle (b), the twin / stranger certificates and the table transplant still bind it. One parsed object asked repeatedly (the way a caller walks a signature database with one parsed signature): for every image, histories of 3-7 calls of Authenticode.Verify (over the hash input of the image or a changed stream), its PKCS7.Verify and PECOFFBinary.Verify on ONE parsed Authenticode / PECOFFBinary with the signer, twin and stranger certificates in both orders (signer first, other key first), mixed entry points and random walks; every call must answer what the same call answers on a freshly parsed object, and only (signer certificate, own hash input) may succeed. The histories also hold calls that are CUT SHORT: Authenticode.Verify over a reader that delivers the first k bytes of the hash input and then fails with a read error (the error in a read of its own, or together with the last bytes), or that delivers only the first k bytes, followed by a call that is handed only the REST of the hash input from k on (on the same object, or on an object parsed for that call, under the same or another certificate) and by a call over the whole image; k in {1, 63, 64, half, length-1, two random positions} (quick: one of the first five and one random), five fixed shapes per k plus the random walks, in which every step draws its stream from {whole, changed, fault@k, head@k, tail@k} and a quarter of the steps run on an object parsed for the step. The steps of a history run back to back; what each call answers alone is asked on freshly parsed objects after the history. A call over a failing reader, over a head or over a tail must never succeed. The reader-based API (Authenticode.Verify under the signer's certificate, SignAuthenticode) is run over every reader kind (bytes.Reader, bytes.Buffer, one byte per Read, data together with io.EOF, half reads, an io.SectionReader declared larger than the data) x the streams {hash input, last byte changed, middle byte changed, last byte missing, another image, the hash input without its first byte, the hash input from a position chosen by the image}, AND over seekable readers that do not stand at offset 0 when handed over: the stream behind a header of 1..96 random bytes with the reader standing on the first byte of the stream (bytes.Reader seeked / read up to there, strings.Reader seeked, io.SectionReader window into a larger buffer seeked / read up to there, *os.File seeked), and, for the two suffix streams, the same six readers over the WHOLE hash input standing at the cut; Verify must succeed exactly when the bytes the reader delivers are the hash input, SignAuthenticode (all reader kinds at offset 0; a third of the positioned ones per generated image, all of them for the repository binaries) must embed the SHA-256 of the bytes delivered. Every case is non-trivial; distinct = distinct (image bytes, certificate) resp. (image, history, step) resp. (image, stream, reader).",
 		Assume: []string{"RSA/SHA-256 on the model side are the executable Lean implementations", "x509.ParseCertificates is opaque (its verdicts are handed to the model)"},
 		Eval:   c02Eval, Gen: c02Gen,
 	})
